@@ -121,13 +121,15 @@ StillWaiting(S, T, w, s, p) ==
   /\ S.veh[w].act = "ChargeQueueing" /\ S.veh[w].tgt = s /\ S.veh[w].plug = p
   /\ T.veh[w].act = "ChargeQueueing" /\ T.veh[w].tgt = s /\ T.veh[w].plug = p
 
-C18_Step(S, T, v, VLess(_, _)) ==
+\* `how`: "" for the queue's own grant (the default transition in the vehicle's update), "by_instruction/" when an
+\* instruction took the vehicle out of the queue onto the plug - the statement covers both
+C18_Step(S, T, v, VLess(_, _), how) ==
   IF ~Grant(S, T, v) THEN {}
   ELSE LET s == S.veh[v].tgt  p == S.veh[v].plug  e == S.veh[v].enq IN
-    {V("C18", "fifo", IF S.veh[w].full THEN "earlier_waiter_full" ELSE "earlier_waiter", w) :
+    {V("C18", "fifo", how \o (IF S.veh[w].full THEN "earlier_waiter_full" ELSE "earlier_waiter"), w) :
         w \in {w \in DOMAIN S.veh \ {v} : StillWaiting(S, T, w, s, p) /\ S.veh[w].enq < e}}
     \cup
-    {V("C18", "tie_by_id", IF S.veh[w].full THEN "earlier_waiter_full" ELSE "earlier_waiter", w) :
+    {V("C18", "tie_by_id", how \o (IF S.veh[w].full THEN "earlier_waiter_full" ELSE "earlier_waiter"), w) :
         w \in {w \in DOMAIN S.veh \ {v} : StillWaiting(S, T, w, s, p) /\ S.veh[w].enq = e /\ VLess(w, v)}}
 
 -----------------------------------------------------------------------------
